@@ -841,6 +841,24 @@ def judge_map(run, spec, req, resp, ramp, case, n_up_before):
         # nothing was ever fetched: the picture must be background wherever it is clearly outside
         ks = {0: spec['s0']}
     mech['clipped'] = bool(has_inside and (geom.inside < 0).any())
+    if not mech['clipped'] and spec.get('coverage') and spec.get('cached'):
+        # the client request lies inside the coverage, but the tiles it is built from may come from upstream requests that
+        # MapProxy cut at the coverage (same sub-image placement, one stage earlier): an upstream request with an edge on the
+        # coverage's edge was seen in this scenario
+        cov = spec['coverage']
+        for m_ in ramp.maps:
+            try:
+                xs, ys = geo.transform(cov['srs'], m_['srs'], np.array([cov['bbox'][0], cov['bbox'][2], cov['bbox'][0], cov['bbox'][2]]),
+                                       np.array([cov['bbox'][1], cov['bbox'][1], cov['bbox'][3], cov['bbox'][3]]))
+            except Exception:
+                continue
+            ex, ey = (max(xs) - min(xs)) * 0.005, (max(ys) - min(ys)) * 0.005
+            b_ = m_['bbox']
+            if (abs(b_[0] - min(xs)) < ex or abs(b_[2] - max(xs)) < ex or abs(b_[1] - min(ys)) < ey or abs(b_[3] - max(ys)) < ey):
+                mech['clipped'] = True
+                mech['clipped_at'] = 'upstream_request'
+                run.count('requests_built_from_coverage_cut_upstream_requests')
+                break
     stride = max(1, int(math.sqrt(w * h / 3000.0)))
     # octaves fetched for this very request first (ties go to them), then whatever the cache may hold from earlier ones
     mine = [m['k'] for m in ramp.maps if m['n'] > n_up_before]
